@@ -123,6 +123,7 @@ type env struct {
 	chunk   int64
 	verbose bool
 	stopped bool
+	sampled map[string]bool
 }
 
 func newEnv(r *core.Run) *env { return &env{r: r} }
@@ -226,6 +227,15 @@ func (e *env) batch(fn, body string, inputs []any) []any {
 	e.r.Count("driver_ms:"+fn, time.Since(t0).Milliseconds())
 	e.r.Count("driver_items:"+fn, int64(len(inputs)))
 	if err == nil && len(outs) == len(inputs) {
+		if e.r.ShardIdx == 0 && !e.sampled[fn] && len(inputs) > 0 {
+			// evidence sample: a real evaluated case of this driver (input and raw observation)
+			if e.sampled == nil {
+				e.sampled = map[string]bool{}
+			}
+			e.sampled[fn] = true
+			k := len(inputs) / 2
+			e.r.Sample(map[string]any{"section": e.sec, "driver": fn, "input": trunc(canon(inputs[k]), 300), "observed": trunc(canon(outs[k]), 400)})
+		}
 		return outs
 	}
 	if _, ok := fqrun.IsPanic(err); ok {
